@@ -49,6 +49,41 @@ def echo_doc():
     return {'headers': hs, 'rows': rows, 'profile': 'echo'}
 
 
+def mixed_interp_doc():
+    """interpretation lines that hold signatures of DIFFERENT kinds side by side (a clef change in one spine on the line of a key change in
+    another, a meter next to a null interpretation ...): which placeholder a filtered-out cell leaves (`*` for a signature) is decided cell
+    by cell (added after seeded change C05_r5_1)"""
+    import gen
+    rng = random.Random(5051)
+    cg = gen.CellGen(rng, sig_weight=0.2)
+    hs = ['**kern', '**kern', '**kern', '**text']
+    live = list(range(len(hs)))
+    rows = [{'kind': 'cells', 'rk': 'header', 'cells': [{'k': 'header', 'text': h} for h in hs], 'live': live}]
+
+    def interp(whats):
+        rows.append({'kind': 'cells', 'rk': 'interp', 'live': live,
+                     'cells': [cg.interp_cell(h, w) if w != 'null' else dict(gen.NULL_I) for h, w in zip(hs, whats)]})
+
+    def data():
+        rows.append({'kind': 'cells', 'rk': 'data', 'live': live, 'cells': [cg.data_cell(h) for h in hs]})
+
+    def bar(n):
+        b = cg.bar(n)
+        rows.append({'kind': 'cells', 'rk': 'bar', 'live': live, 'cells': [dict(b) for _ in hs]})
+    interp(['clef', 'clef', 'clef', 'null'])
+    interp(['keysig', 'timesig', 'clef', 'null'])
+    interp(['meter', 'keysig', 'timesig', 'null'])
+    bar(1); data(); data()
+    interp(['clef', 'null', 'keysig', 'null'])
+    interp(['timesig', 'meter', 'null', 'null'])
+    interp(['key', 'clef', 'staff', 'null'])
+    data(); bar(2)
+    interp(['null', 'keysig', 'clef', 'null'])
+    data()
+    rows.append({'kind': 'cells', 'rk': 'term', 'cells': [gen.op_cell('*-') for _ in hs], 'live': live})
+    return {'headers': hs, 'rows': rows, 'profile': 'mixed-interp'}
+
+
 def explore(ctx, depth):
     import docrun, gen
     from kernpy.core.tokens import TokenCategory as TC
@@ -57,7 +92,7 @@ def explore(ctx, depth):
     save = ctx.rng
     ctx.rng = random.Random(20260926)
     fixed = docrun.make_cases(ctx, 3 if depth == 'quick' else 8, max_measures=3)
-    fixed += docrun.make_cases(ctx, 0, docs=[echo_doc()])
+    fixed += docrun.make_cases(ctx, 0, docs=[echo_doc(), mixed_interp_doc()])
     ctx.rng = save
     combos, seen = [], set()
 
